@@ -737,6 +737,73 @@ def gen_C14(rng, count, tier):
             toks += ["turn"] * 3
             n += 1
             yield ("copier", " ".join(toks))
+    # a sequential source that holds bytes no readyRead() of their own announced (`arriveq`): a piece that comes
+    # together with the end of the stream, or between two announced pieces; with and without the timer turn, stopped,
+    # with a failing destination
+    for src in (b"", b"A", b"ABC", b"ABCDE"):
+        for cut in range(0, len(src) + 1):
+            head, tail = src[:cut], src[cut:]
+            A, AQ = "arrive:", "arriveq:"
+            pats = [["start", A + hx(head), AQ + hx(tail), "eof"],
+                    ["start", "turn", A + hx(head), AQ + hx(tail), "eof"],
+                    ["start", AQ + hx(head), A + hx(tail), "eof"],
+                    ["start", AQ + hx(head), "turn", A + hx(tail), "eof"],
+                    ["start", AQ + hx(head), AQ + hx(tail), "eof"],
+                    ["start", "turn", AQ + hx(head), "turn", AQ + hx(tail), "eof"],
+                    ["start", "turn", A + hx(head), AQ + hx(tail), "turn", "turn", "eof"],
+                    ["start", A + hx(head), AQ + hx(tail), "stop", "eof"],
+                    ["start", A + hx(head), "stop", AQ + hx(tail), "turn", "eof"],
+                    ["start", "turn", AQ + hx(head), AQ + hx(tail)]]
+            for evs in pats:
+                n += 1
+                yield ("copier", " ".join(["src:" + hx(src), "seq"] + evs))
+            for flt in ("write:0", "write:1", "dstopen", "srcopen"):
+                n += 1
+                yield ("copier", " ".join(["src:" + hx(src), "seq", "fail:" + flt, "start", "turn", A + hx(head), AQ + hx(tail), "eof"]))
+    # a random-access source that has been read from before start(): every position (one beyond the size included:
+    # the device refuses it), every block size, no range / ranges starting at 0 (no seek) / ranges starting later (seek)
+    for ln in range(0, (3 if tier == "quick" else 5) + 1):
+        src = bytes(range(65, 65 + ln))
+        for block in range(1, ln + 2):
+            for pp in range(1, ln + 2):
+                ranges = [None] + [(0, t) for t in range(-1, ln + 2)] + [(f, t) for f in range(1, ln + 2) for t in (-1, f - 1, f, ln)]
+                for r in ranges:
+                    turns = ln // block + 3
+                    toks = ["src:" + hx(src), "block:%d" % block, "prepos:%d" % pp] + (["range:%d:%d" % r] if r else []) + ["start"] + ["turn"] * turns
+                    n += 1
+                    yield ("copier", " ".join(toks))
+    for ln, block, pp in ((7, 2, 3), (7, 3, 6), (4, 1, 2), (9, 4, 9)):
+        src = bytes(range(97, 97 + ln))
+        total = ln // block + 3
+        for at in range(0, total + 1):
+            for r in (None, (0, 4), (2, 5)):
+                toks = ["src:" + hx(src), "block:%d" % block, "prepos:%d" % pp] + (["range:%d:%d" % r] if r else []) + ["start"] + ["turn"] * at + ["stop"] + ["turn"] * 3
+                n += 1
+                yield ("copier", " ".join(toks))
+        for flt in ("read:0", "read:1", "write:0", "write:1", "seek", "srcopen", "dstopen"):
+            for r in (None, (0, 4), (2, 5)):
+                toks = ["src:" + hx(src), "block:%d" % block, "prepos:%d" % pp, "fail:" + flt] + (["range:%d:%d" % r] if r else []) + ["start"] + ["turn"] * total
+                n += 1
+                yield ("copier", " ".join(toks))
+    # start() again after stop(): the first run is stopped at every turn, the stale 0 ms timer fires (one turn at least
+    # between the stop and the second start), then the second run is left to run
+    for ln in (0, 1, 4, 7):
+        src = bytes(range(97, 97 + ln))
+        for block in (1, 2, 3, 8):
+            total = ln // block + 3
+            for at in range(0, total + 1):
+                for r in (None, (1, 3), (0, 2), (2, -1), (0, -1), (3, 9)):
+                    toks = ["src:" + hx(src), "block:%d" % block] + (["range:%d:%d" % r] if r else []) + ["start"] + ["turn"] * at + ["stop", "turn", "turn", "start"] + ["turn"] * total
+                    n += 1
+                    yield ("copier", " ".join(toks))
+    for ln, block, pp in ((7, 2, 3), (5, 1, 1)):
+        src = bytes(range(97, 97 + ln))
+        total = ln // block + 3
+        for at in range(0, total + 1):
+            for r in (None, (0, 4), (2, 5)):
+                toks = ["src:" + hx(src), "block:%d" % block, "prepos:%d" % pp] + (["range:%d:%d" % r] if r else []) + ["start"] + ["turn"] * at + ["stop", "turn", "start"] + ["turn"] * total
+                n += 1
+                yield ("copier", " ".join(toks))
     while n < count:
         n += 1
         ln = pick(rng, [0, 1, 2, 3, 9, 17, 40]) if rng.random() < 0.95 else 200000
@@ -751,8 +818,9 @@ def gen_C14(rng, count, tier):
             parts = cuts(rng, src)
             if rng.random() < 0.5:
                 evs.append("turn")
+            quiet = rng.random() < 0.5
             for pce in parts:
-                evs.append("arrive:" + hx(pce))
+                evs.append(("arriveq:" if quiet and rng.random() < 0.4 else "arrive:") + hx(pce))
                 if rng.random() < 0.3:
                     evs.append("turn")
             if rng.random() < 0.15:
@@ -768,10 +836,16 @@ def gen_C14(rng, count, tier):
             toks.append("range:%d:%d" % (f, t))
         if k == 7 or rng.random() < 0.15:
             toks.append("fail:" + pick(rng, ["srcopen", "dstopen", "seek", "read:0", "read:1", "read:2", "write:0", "write:1", "write:3"]))
+        if rng.random() < 0.3:
+            toks.append("prepos:%d" % rng.randrange(0, ln + 2))
         turns = ln // block + 3
         evs = ["start"] + ["turn"] * turns
         if rng.random() < 0.2:
-            evs.insert(rng.randrange(1, len(evs) + 1), "stop")
+            at = rng.randrange(1, len(evs) + 1)
+            evs.insert(at, "stop")
+            if rng.random() < 0.4:
+                # ... and the copy is started again, once the stale timer has fired
+                evs = evs[:at + 1] + ["turn"] * rng.randrange(1, 3) + ["start"] + ["turn"] * turns
         yield ("copier", " ".join(toks + evs))
 
 
